@@ -69,7 +69,7 @@ def gen(r, tier, i):
         if par and r.random() < 0.7:
             p['parallel'] = True
         procs.append(p)
-    calls = sched.gen_calls(r, grid, gprec, maxcalls=6, end_with_update=r.random() < 0.8)
+    calls = sched.gen_calls(r, grid, gprec, maxcalls=6, end_with_update=r.random() < 0.8, zero=True)
     calls = sched.cap_events(r, procs, calls, grid, gprec, cap=200 if not par else 60)
     if grid == 'dyadic':
         t0 = r.choice([0, 0, 0.0, 1.5, 10.0])
@@ -184,7 +184,13 @@ def run(spec):
                 truncated += arg != ans
         # rows: ledger at T == tokens with E <= T ; accumulators == sums
         if ok:
-            for T, row, _ in rows:
+            from vmon.sensors import superseded_rows
+            sup = superseded_rows(m.events)
+            for (T, row, _), superseded in zip(rows, sup):
+                if superseded:
+                    # an empty forced interval completed left-behind processes at T after this row: the
+                    # second row for T is the complete one (the repeated time key is C12's business)
+                    continue
                 Tq = exact(T, grid)
                 exp = {(pid, k) for pid, ivs in due_by_proc.items() for (k, S_k, E_k, arg) in ivs if E_k <= Tq}
                 got = {(tok[0], tok[1]) for tok in map(tuple, row.get('log', []))}
